@@ -3,11 +3,50 @@ from oracles import geom_o as GO
 from props import _geom
 
 LEVEL = "other"
-DEDUCTIVE = []
-TRUSTED = ["numpy", "scipy KD-tree query_pairs returns exactly the pairs within the radius", "CPython 3.12"]
-ASSUMPTIONS = ["A-real; pairs within 1e-6 of a threshold are undecided"]
-EXPLANATION = "see DESIGN.md 4/C04"
-
+DEDUCTIVE = [
+    {"module": "rnapolis.annotator", "sidecar": "contracts.annotator_c",
+     "targets": ["find_stackings", "angle_between_vectors", "lemma:mean_unique", "lemma:sumsq_pos"]},
+    {"module": "rnapolis.tertiary", "sidecar": "contracts.annotator_c", "targets": ["Residue3D.find_atom", "Residue3D.__lt__"]},
+]
+TRUSTED = [
+    "CPython 3.12 (list/dict/tuple semantics as encoded by pyvc)",
+    "scipy.spatial.KDTree(points).query_pairs(r): exactly the set {(i, j): 0 <= i < j < n, |p_i - p_j| <= r} (contracts/annotator_c.py ext_kdtree, ext_query_pairs)",
+    "sorted(list of (Residue3D, Residue3D, str)): a permutation of its argument in which no later element is smaller than an earlier one under the "
+    "tuple order built on Residue3D.__lt__ (ext_sorted; only the consequences written there are used)",
+    "sum(list): sum([]) == 0 and sum(L + [v]) == sum(L) + v (lemmas sum_empty, sum_append; exact also for floats, Python adds left to right)",
+    "math.degrees is monotone (lemma degrees_monotone); math.acos, numpy.dot and the squared distance are left UNINTERPRETED: nothing is assumed about "
+    "them, code and specification use the same symbols (py_acos, np_dot3, sqdist)",
+    "numpy.linalg.norm(v) is the non-negative n with n*n == v.v; numpy.array of a 3-element list is the 3-vector (contracts/externals.py)",
+    "z3 / cvc5",
+]
+ASSUMPTIONS = [
+    "A-real: floats are mathematical reals; the thresholds 6 A / 35 deg / 45 deg are sandwiched by EPS = 1e-6 (reported => definition with thresholds + EPS; "
+    "definition with thresholds - EPS => reported; the sign of the normals' dot product is decided outside [-EPS, EPS]), so pairs within 1e-6 of a threshold are undecided",
+    "precondition: distinct participating residues (analysed model, at least one base heavy atom) have distinct base centroids - the code keys a dictionary by the "
+    "centroid tuple and is lossy otherwise; and distinct (label, auth) identifiers (needed for 'reported once' to be expressible on the output records)",
+    "precondition: an existing base normal is a non-zero vector (tertiary.py:264 returns a unit vector; collinear N9/N7/N3 resp. N1/C4/O2 give NaN, outside A-real)",
+    "Residue.chain / number / icode (properties of the frozen base class, common.py:229-249) and the cached property Residue3D.base_normal_vector are read as "
+    "stored attributes of the residue; label / auth are opaque tokens; every residue has a chain and a number (no None keys in __lt__)",
+    "the centroid-to-centroid vector is taken from the later to the earlier residue in file order (the reading of the design phase, spec function cvec / oracle "
+    "geom_o.stacking_expected); 'upward'/'inward' when the earlier residue is the lower one, 'downward'/'outward' otherwise",
+    "definitional lemmas (explicit definitions of abbreviations, not proved): first_idx_definition (least index of an atom name, -1 if absent), "
+    "centroid_definition (cnt_base = number of pinned base heavy atoms found, n * centroid = sum of their coordinates), vangle_definition (angle = arccos of the "
+    "normalised dot product; angle_between_vectors is proved to return it), residue_order_definition (rlt = lexicographic order of (model, chain, number, icode or ' '); "
+    "Residue3D.__lt__ is proved to return it)",
+    "BASE_ATOMS is compared with the pinned table spec/tables.py BASE_ATOMS through the centroid definition (an edited entry changes the obligations of loop 1)",
+]
+EXPLANATION = (
+    "Deductive (pyvc, SMT): find_stackings is under contract as a whole (4 loops, ghost index lists SRC0/POS0/SRC2/POS2 and the ghost permutation of sorted()). "
+    "Top-level clauses, transcribed from the property text: (1) every reported Stacking is built from two participating residues a < b (file order) that satisfy the "
+    "definition with thresholds + EPS - centroids within 6 A, normals within 35 deg of parallel or antiparallel (angle(n_a, n_b) <= 35 or angle(-n_a, n_b) <= 35), "
+    "centroid-to-centroid vector within 45 deg of one of the normals - lists the lower residue first and is labelled upward/downward when the normals point the same "
+    "way (dot > -EPS) and inward/outward when they oppose; (2) every such pair satisfying the definition with thresholds - EPS is reported with that orientation and label; "
+    "(3) no residue pair is reported twice; (4) the list is ordered by (model,) chain, number, insertion code of the first and then of the second residue. "
+    "Helper contracts, each a verified target: angle_between_vectors (returns the arccos of the normalised dot product), Residue3D.find_atom (first atom of that name or None), "
+    "Residue3D.__lt__ (lexicographic key order). Loop 1/0 prove that each coordinates[k] is the mean of the found pinned base heavy atoms of one participating residue and that "
+    "the centroid-keyed dictionary maps it back to that residue (uses the distinct-centroid precondition). What stays bounded: the same property re-evaluated by the O(n^2) "
+    "oracle on corpus structures (floating point, real KD-tree, real sorted); the assumed contracts listed under TRUSTED are not proved."
+)
 
 def bounded(tier, seed):
     return [_geom.run("stacking-vs-definition", tier, seed,
